@@ -23,7 +23,7 @@
            max |-> max_msg_size (0 = unlimited)]
    Infl(k, full)  the k-th inflate call of this execution (uninterpreted codec: its
            results are supplied by the harness / by a toy codec in the model):
-           [has, inp, ok, outlen, utf8, out]
+           [has, inp, ok, outlen, utf8, out, full (the output is the complete inflation of inp)]
    rej  which way to go at a point where the property PERMITS either outcome
            (message size exactly max_msg_size): TRUE = reject with 1009.
 
@@ -101,6 +101,19 @@ ValidCloseCode(code) ==
     \/ (code >= 1007 /\ code <= 1014)
     \/ (code >= 3000 /\ code <= 4999)
 
+(* What the FIRST header byte alone already settles (an implementation may reject on it without
+   waiting for the second byte).  inMsg: a fragmented message is in progress.                    *)
+FirstByteBad(b1, inMsg, compress) ==
+    LET fin == b1 >= 128
+        rsv1 == (b1 \div 64) % 2 = 1
+        op == b1 % 16
+    IN \/ (b1 \div 16) % 4 # 0
+       \/ (rsv1 /\ ~compress)
+       \/ op \notin KnownOps
+       \/ (IsCtl(op) /\ (~fin \/ rsv1))
+       \/ (op = OpCont /\ (rsv1 \/ ~inMsg))
+       \/ (op \in {OpText, OpBin} /\ inMsg)
+
 (* ------------------------------------------------------------------ state --- *)
 Init0 ==
     [ph |-> "H", pos |-> 0, hstart |-> 0,
@@ -116,6 +129,7 @@ FailOut == [NoneOut EXCEPT !.k = "fail"]
 MsgOut(t, data, code) == [k |-> "msg", m |-> [t |-> t, data |-> data, code |-> code]]
 BadInflOut == [NoneOut EXCEPT !.k = "badinfl"]  \* inflater was given other bytes than payload ++ 00 00 ff ff
 NoInflOut == [NoneOut EXCEPT !.k = "noinfl"]    \* a compressed message completed but nothing was inflated
+TruncInflOut == [NoneOut EXCEPT !.k = "truncinfl"]  \* a message within the size limit was inflated only in part
 
 Failed(r) == r.failed # {}
 
@@ -224,6 +238,8 @@ DataDone(r, r0, full, mop, mcomp, c, Infl(_, _), rej) ==
             IN IF ~o.has THEN [r |-> rk, out |-> NoInflOut]
                ELSE IF o.inp # full \o DeflateTail THEN [r |-> rk, out |-> BadInflOut]
                ELSE IF ~o.ok THEN Fail(rk, {NoCode, 1002, 1007, 1009}, "inflate-error", r.pos)
+               \* the inflater may stop early only to prove that the message exceeds max_msg_size
+               ELSE IF ~o.full /\ (c.max = 0 \/ o.outlen <= c.max) THEN [r |-> rk, out |-> TruncInflOut]
                ELSE IF c.max > 0 /\ o.outlen > c.max THEN Fail(rk, {1009}, "inflated-too-big", r.pos)
                ELSE IF c.max > 0 /\ o.outlen = c.max /\ rej THEN Fail(rk, {1009}, "at-cap", r.pos)
                ELSE IF mop = OpText /\ c.decode /\ ~o.utf8 THEN Fail(rk, {1007}, "text-utf8", r.pos)
